@@ -25,8 +25,23 @@ func Subst(info *types.Info, node ast.Node, repl map[types.Object]ast.Expr) ast.
 }
 
 type subst struct {
-	info *types.Info
-	repl map[types.Object]ast.Expr
+	info   *types.Info
+	repl   map[types.Object]ast.Expr
+	fields map[types.Object]map[string]ast.Expr
+}
+
+// SubstFields is Subst for a local that holds a record built from known expressions
+// (ln := lane{this.queue1, &this.capacity1}): every selection ln.f is replaced by the expression the
+// record was built with, *ln.f of an address-of by the thing addressed.
+func SubstFields(info *types.Info, node ast.Node, fields map[types.Object]map[string]ast.Expr) ast.Node {
+	s := &subst{info: info, repl: map[types.Object]ast.Expr{}, fields: fields}
+	switch n := node.(type) {
+	case ast.Expr:
+		return s.expr(n)
+	case ast.Stmt:
+		return s.stmt(n)
+	}
+	return node
 }
 
 func (s *subst) carry(old, nu ast.Expr) {
@@ -103,6 +118,23 @@ func (s *subst) expr(e ast.Expr) ast.Expr {
 			nu = &ast.StarExpr{Star: v.Star, X: x}
 		}
 	case *ast.SelectorExpr:
+		if s.fields != nil {
+			if id, ok := ast.Unparen(v.X).(*ast.Ident); ok {
+				if fs, ok := s.fields[s.info.ObjectOf(id)]; ok {
+					if r, ok := fs[v.Sel.Name]; ok {
+						switch r.(type) {
+						case *ast.Ident, *ast.BasicLit, *ast.SelectorExpr, *ast.CallExpr, *ast.ParenExpr, *ast.IndexExpr:
+							return r
+						}
+						p := &ast.ParenExpr{Lparen: v.Pos(), X: r, Rparen: v.End()}
+						if tv, ok := s.info.Types[r]; ok {
+							s.info.Types[p] = tv
+						}
+						return p
+					}
+				}
+			}
+		}
 		if x := s.expr(v.X); x != v.X {
 			nu = &ast.SelectorExpr{X: x, Sel: v.Sel}
 		}
